@@ -412,6 +412,18 @@ class Inliner:
                         and self._pure_expr(st.value, self.max_depth) is None and self._callee(st.value)[0] is not None:
                     out.extend(self._expand(st.value, st.targets[0], depth))
                     continue
+                if isinstance(st, ast.Return) and isinstance(st.value, ast.Call) and self._pure_expr(st.value, self.max_depth) is None \
+                        and self._callee(st.value)[0] is not None:
+                    # `return self._helper(...)`  ->  <helper body, its returns assigning a temporary>; return <temporary>
+                    tmp = ast.Name(id=f"_ret__i{self.count + 1}", ctx=ast.Store())
+                    body = self._expand(st.value, tmp, depth)
+                    ret = ast.copy_location(ast.Return(value=ast.Name(id=tmp.id, ctx=ast.Load())), st)
+                    ast.fix_missing_locations(ret)
+                    # a helper that falls off its end returns None
+                    init = ast.copy_location(ast.Assign(targets=[ast.Name(id=tmp.id, ctx=ast.Store())], value=ast.Constant(value=None)), st)
+                    ast.fix_missing_locations(init)
+                    out.extend([init] + body + [ret])
+                    continue
             except _NoInline as ex:
                 c_ = st.value if isinstance(st, (ast.Expr, ast.Assign)) else None
                 if isinstance(c_, ast.Call) and self._callee(c_)[0] is not None and "not a private helper" not in str(ex):
@@ -1128,13 +1140,35 @@ class RunShape:
                     if isinstance(t, ast.Name) and v is not None and sub0(v, self.a, 0):
                         self.chainee = t.id
                         self.chainee_binds.append(n.id)
-        # returned-Deferred alias: local bound from <cur>.result
-        self.res_alias: Set[str] = set()
+        # named temporaries holding <cur>.result: `x = cur.result`, or co-assigned with it (`x = cur.result = callback(...)`);
+        # kept only while fresh: no other store to <cur>.result between the definition and any use of the temporary
+        writes = [n.id for n in g.nodes if n.kind == "stmt" and g.reachable(n.id) and any(attr_of(t, "result", self.cur) for t, _ in targets_values(n.ast))]
+        cand: Dict[str, List[int]] = {}
         for n in g.nodes:
             if n.kind == "stmt" and g.reachable(n.id):
-                for t, v in targets_values(n.ast):
-                    if isinstance(t, ast.Name) and v is not None and attr_of(v, "result", self.cur):
-                        self.res_alias.add(t.id)
+                tv = targets_values(n.ast)
+                co = any(attr_of(t, "result", self.cur) for t, _ in tv)
+                for t, v in tv:
+                    if isinstance(t, ast.Name) and v is not None and (attr_of(v, "result", self.cur) or (co and isinstance(n.ast, ast.Assign) and len(n.ast.targets) > 1)):
+                        cand.setdefault(t.id, []).append(n.id)
+        self.cur_val: Set[str] = set()
+        for name, defs in cand.items():
+            if set(name_assign_nodes(g, name)) != set(defs):
+                continue
+            uses = [u.id for u in g.nodes if u.ast is not None and u.kind in ("stmt", "test") and g.reachable(u.id) and u.id not in defs
+                    and any(isinstance(x, ast.Name) and x.id == name and isinstance(x.ctx, ast.Load) for x in ast.walk(u.ast))]
+            stale = any(c not in defs and g.path(defs, [c], avoid=set(defs), edge_ok=no_exc, strict=True) is not None
+                        and g.path([c], uses, avoid=set(defs), edge_ok=no_exc, strict=True) is not None for c in writes)
+            if not stale:
+                self.cur_val.add(name)
+        # returned-Deferred alias: local bound from <cur>.result (or from a fresh temporary holding it)
+        self.res_alias: Set[str] = set(self.cur_val)
+        for _ in range(2):
+            for n in g.nodes:
+                if n.kind == "stmt" and g.reachable(n.id):
+                    for t, v in targets_values(n.ast):
+                        if isinstance(t, ast.Name) and v is not None and (attr_of(v, "result", self.cur) or (isinstance(v, ast.Name) and v.id in self.res_alias)):
+                            self.res_alias.add(t.id)
         # registration of a continuation on the returned Deferred
         self.regs: List[int] = call_nodes(g, self._is_reg)
         # value taken from the returned Deferred: V = getattr(Y, "result", ...) | Y.result
@@ -1148,6 +1182,10 @@ class RunShape:
                                                               for t, v in targets_values(st) if v is not None))
 
     # -- role predicates ----------------------------------------------------------------------
+    def is_cur_result(self, e) -> bool:
+        """expression denoting the current result of the current Deferred: `<cur>.result` or a fresh temporary holding it"""
+        return attr_of(e, "result", self.cur) or (isinstance(e, ast.Name) and e.id in self.cur_val)
+
     def is_inner(self, e) -> bool:
         """expression denoting the Deferred returned by the callback"""
         return (isinstance(e, ast.Name) and e.id in self.res_alias) or attr_of(e, "result", self.cur)
